@@ -135,16 +135,28 @@ class NP:
             start, stop = 0, start
         start, stop, step = map(SR.lift, (start, stop, step))
         q = (stop - start) / step
-        # numpy: len = ceil((stop-start)/step): the unique integer n with n-1 < q <= n
+        # numpy: len = ceil((stop-start)/step): the unique integer n with n-1 < q <= n.
+        # guess n from the value of q at a sample point, then let the solver decide that it is the length under the
+        # path condition (if other lengths are feasible the run forks on them)
         c = Ctx.cur
-        n = z3.Int('n!arange')
-        r, sv = c.check(z3.And(z3.ToReal(n) - 1 < q.term(), q.term() <= z3.ToReal(n)))
-        if r != 'sat':
-            raise NotEncodable('arange: cannot determine a length (%s)' % r)
-        nv = sv.model()[n].as_long()
-        if not bool(SB(z3.And(nv - 1 < q.term(), q.term() <= nv))):
-            # other lengths possible under this path condition: enumerate by forking again
-            return self.arange(start, stop, step)
+        import math as _m
+        fp = c.fingerprint(q)
+        cands = []
+        if fp is not None:
+            n0 = _m.ceil(fp)
+            cands = [n0, n0 - 1, n0 + 1]
+        nv = None
+        for cand in cands:
+            if bool(SB(z3.And(cand - 1 < q.term(), q.term() <= cand))):
+                nv = cand; break
+        if nv is None:
+            n = z3.Int('n!arange')
+            r, sv = c.check(z3.And(z3.ToReal(n) - 1 < q.term(), q.term() <= z3.ToReal(n)))
+            if r != 'sat':
+                raise NotEncodable('arange: cannot determine a length (%s)' % r)
+            nv = sv.model()[n].as_long()
+            if not bool(SB(z3.And(nv - 1 < q.term(), q.term() <= nv))):
+                return self.arange(start, stop, step)
         nv = max(nv, 0)
         out = _np.empty(nv, dtype=object)
         for i in range(nv):
